@@ -14,6 +14,9 @@ CHECKS = {
  "C03": ("2/C03", TECH + ": programs (every node kind, every table function) x inputs x environment aliasing/capacity shapes; every name path of the schema-covering family x continuations; before/after fingerprints",
          "every (program, input, environment shape) of the finite product is evaluated on the real code; inputs, backing arrays (incl. sentinel-filled spare capacity), slice headers and the compiled expression tree are compared before/after, and every FHIR element of a result must be an input's own node",
          "reflect/unsafe observe private state; programs beyond the list and resources deeper than the depth bound are not covered"),
+ "C04": ("1.4, 2/C04", "stateless model checking of the implementation: preemption-bounded DFS over all interleavings at instrumented scheduling points under a controlled cooperative scheduler; explicit enumeration of Compile and Evaluate call histories on the real API; TZ/clock enumeration; plus a labelled free-running -race sample",
+         "for 13 scenarios of 2-3 threads sharing compiled expressions and resources every schedule with <= 1-2 (quick) / 2-3 (thorough) preemptions at the instrumented points (function entries, loop iterations, package-variable writes of the CURRENT tree, re-instrumented on every run) is executed to completion and each thread's observation is compared with its isolated observation; every Compile history (<=3/4 calls over 11) and Evaluate history (<=2/3 over 48) is executed and compared with the empty-history outcome and the initial observable state; now()/today()/timeOfDay() under 12 override instants and 4 process time zones",
+         "scheduling points are at function-entry/loop/package-variable granularity: unsynchronised accesses inside a basic block are only seen by the free-running -race pass (a sample, never the deciding step); more than 3 threads / 3 preemptions are not explored; the bound completed is reported per scenario"),
  "C05": ("2/C05", TECH + ": all ordered pairs and triples of a typed value pool x 6 operators; all collection pairs up to a length bound",
          "every ordered pair/triple of the value pool and every collection pair within the bound is evaluated on the real Compile/Evaluate and compared with an independent comparator and with the relational laws on the implementation's own outputs",
          "values outside the pool are not covered; reference comparator (math/big, own date/time component model) is trusted"),
@@ -75,7 +78,7 @@ for cid in ALL:
         "thorough_cmd": "./check %s thorough" % cid,
         "evidence_file": "evidence/%s.json" % cid,
         "replay_cmd_template": "./check %s --replay {path}" % cid,
-        "engine": "bfs" if cid in ("C18", "C04") else "explorer",
+        "engine": "bfs" if cid == "C18" else ("sched" if cid == "C04" else "explorer"),
         "level_claimed": {"category": "model_checking", "text": text, "design_ref": "DESIGN.md section " + sec},
         "level_note": note,
         "technique": tech,
@@ -84,8 +87,8 @@ na = [{"property_id": c, "reason": "check under construction in this session (pl
 m = {
  "version": 1,
  "setup_cmd": "./setup.sh",
- "hooks": {"guard": "verif", "enable": "no hooks in /repo: the harness module (replace => /repo) imports the repository's packages directly and is rebuilt against the working tree by ./check", "baseline_off_cmd": "cd /repo && GOFLAGS=-mod=mod go test -vet=off -count=1 ./...", "source_commits": [], "add_only": True},
- "engines": [{"name": "bfs", "path": "harness/checks", "serves_properties": ["C18"], "kind_free_text": "explicit-state breadth-first search over operation histories of the real object; state = canonical deterministic bytes; successors by replaying the shortest path on a fresh copy; every transition compared with a reference model"}, {"name": "explorer", "path": "harness/core", "serves_properties": sorted(CHECKS), "kind_free_text": "index-enumerated finite case spaces, sharded over 16 worker sub-processes, every case executed on the real code; findings classified against known_findings.json and re-executed 5x before being reported"}],
+ "hooks": {"guard": "verif", "enable": "no hooks are committed to /repo. ./check C04 instruments a scratch copy of the current working tree at check time (harness/cmd/instr inserts verifsched.Point/Access calls) and builds the schedule explorer against that copy with -tags verif; every other check imports the repository's packages directly through a replace directive", "baseline_off_cmd": "cd /repo && GOFLAGS=-mod=mod go test -vet=off -count=1 ./...", "source_commits": [], "add_only": True},
+ "engines": [{"name": "bfs", "path": "harness/checks", "serves_properties": ["C18"], "kind_free_text": "explicit-state breadth-first search over operation histories of the real object; state = canonical deterministic bytes; successors by replaying the shortest path on a fresh copy; every transition compared with a reference model"}, {"name": "sched", "path": "harness/sched, harness/cmd/instr, harness/cmd/vsched", "serves_properties": ["C04"], "kind_free_text": "source instrumenter (scheduling points) + cooperative one-runnable-goroutine scheduler + preemption-bounded depth-first explorer with prefix replay and determinism gate; built with the guard tag 'verif' against an instrumented scratch copy of the current tree"}, {"name": "explorer", "path": "harness/core", "serves_properties": sorted(CHECKS), "kind_free_text": "index-enumerated finite case spaces, sharded over 16 worker sub-processes, every case executed on the real code; findings classified against known_findings.json and re-executed 5x before being reported"}],
  "checks": checks,
  "not_applicable": na,
  "notes": "fix: commits in /repo are listed under 'fixed' in known_findings.json",
